@@ -534,7 +534,18 @@ async def run_impl(case):
         cur = {"guard": L.guard, "mode": sp["mode"], "build_env": mk_builder(L), "add_headers": sp["add_headers"]}
         init = sp.get("init")
         if not init:
-            L.mw = RbacxMiddleware(app_i, **cur)
+            # the documented defaults (mode="enforce", build_env=None, add_headers=False) are exercised too: in about half
+            # of the cases (a function of the case content) an argument equal to its default is OMITTED from the call
+            import zlib as _z
+            args = dict(cur)
+            if _z.crc32(repr((sp.get("mode"), sp.get("add_headers"), i, len(run.layers))).encode()) % 2 == 0 or sp.get("omit_defaults"):
+                if args["mode"] == "enforce":
+                    del args["mode"]
+                if args["add_headers"] is False:
+                    del args["add_headers"]
+                if args["build_env"] is None:
+                    del args["build_env"]
+            L.mw = RbacxMiddleware(app_i, **args)
             continue
         # a history: constructed with other values, its public attributes reassigned before the request
         first = dict(cur)
